@@ -150,9 +150,8 @@ class BaseDeferred(metaclass=BaseDeferredMetaclass):
 
     def __mul__(self, rhs):
         if self.typ is int:
-            if isinstance(rhs, LinearPolynomial):
-                # Keeps the polynomial symbolic, like 'polynomial * self' does
-                return rhs * self
+            if isinstance(rhs, BaseDeferred):
+                return Deferred[int](lambda: symbolic_product(self, rhs))
             return Deferred[self.typ](lambda: LinearPolynomial[self.typ]({self: wait(rhs)}))
         else:
             raise TypeError(f"Don't know how to multiply {self.typ.__name__}")
@@ -278,8 +277,7 @@ class LinearPolynomial(BaseDeferred):
             rhs = rhs.get_current_best_estimate()
         if isinstance(rhs, BaseDeferred):
             if self.coeffs:
-                # The polynomial itself stays symbolic: only the factor has to be a number
-                return Deferred[int](lambda: self * wait(rhs))
+                return Deferred[int](lambda: symbolic_product(self, rhs))
             else:
                 return rhs * self.constant_term
         return LinearPolynomial[int]({key: value * rhs for key, value in self.coeffs.items()}, self.constant_term * rhs)
@@ -385,6 +383,21 @@ class LinearPolynomial(BaseDeferred):
         else:
             return self.constant_term
 
+
+
+def symbolic_product(lhs, rhs):
+    # The product of two not-yet-known values. At least one factor has to be a
+    # number; the other one may stay symbolic (e.g. an address that depends on
+    # the link base), so whichever is already computable is used as the number.
+    for symbolic, number in ((lhs, rhs), (rhs, lhs)):
+        value = None
+        with try_compute:
+            value = wait(number)
+        if value is not None:
+            if not isinstance(symbolic, LinearPolynomial):
+                symbolic = LinearPolynomial[int]({symbolic: 1})
+            return symbolic * value
+    return wait(lhs) * wait(rhs)
 
 
 class Concatenator(BaseDeferred):
